@@ -8,6 +8,8 @@
 import GherkinVerif.Model.Stream
 import GherkinVerif.Gen.ParserTable
 import GherkinVerif.Gen.Dialects
+import GherkinVerif.Gen.Grammar
+import GherkinVerif.Spec.Grammar
 import Driver.GenAst
 open GV
 
@@ -118,6 +120,17 @@ def handle (op : String) (as : List (List Nat)) : J :=
     match compile (arg as 0) doc start with
     | some (ps, n) => .obj [("doc", doc.toJ), ("pickles", .arr (ps.map Pickle.toJ)), ("ids", .num n), ("start", .num start)]
     | none => .obj [("doc", doc.toJ), ("crash", .str (lit "IndexError")), ("start", .num start)]
+  | "kinds" =>
+    -- kinds of the lines (no EOF) → grammar verdict (Spec), table verdict, events, unexpected indices
+    let ks := (arg as 0).map Kind.fromNat
+    let evJ (e : Ev) : J := match e with
+      | .start r => .str (lit ("start:" ++ r.name))
+      | .end_ r => .str (lit ("end:" ++ r.name))
+      | .build k => .str (lit ("build:" ++ k.name))
+    .obj [("sentence", .bool (Spec.Sentence GV.Gen.grammar T.startRule ks)),
+          ("accepts", .bool (acceptsAbs T ks)),
+          ("events", match eventsAbs T ks with | some es => .arr (es.map evJ) | none => .null),
+          ("errors", .arr ((errorsAbs T 0 0 (ks ++ [.EOF])).map J.num))]
   | "dialects" =>
     .arr (D.map fun d => .obj [("name", .str d.name),
       ("and", .arr (d.and_.map J.str)), ("background", .arr (d.background.map J.str)),
